@@ -206,11 +206,17 @@ func (w *vRespWriter) WriteHeader(code int)        { w.code = code }
 // vC10Request serves one request; the result is the structured report plus
 // the warnings shown on the page (makeReport's second result).
 func vC10Request(ui *webInterface, q string, edit func(*config)) ([]vItem, string, bool) {
+	return vC10RequestCmd(ui, q, edit, []string{"top"})
+}
+
+// vC10RequestCmd: cmd is what the page's handler passes to makeReport
+// (/top: top; /source: weblist <f>; /peek: peek <f>; /disasm: disasm <f>).
+func vC10RequestCmd(ui *webInterface, q string, edit func(*config), cmd []string) ([]vItem, string, bool) {
 	u, err := url.Parse("http://localhost/top?" + q)
 	if err != nil {
 		return nil, "", false
 	}
-	rpt, errs := ui.makeReport(&vRespWriter{}, &http.Request{URL: u}, []string{"top"}, edit)
+	rpt, errs := ui.makeReport(&vRespWriter{}, &http.Request{URL: u}, cmd, edit)
 	if rpt == nil {
 		return nil, "", false
 	}
@@ -246,7 +252,9 @@ func VerifC10Web() {
 	vFreeze(p, "loaded-profile")
 	pristine := vSer(copier.newCopy())
 	first, warn1, ok1 := vC10Request(ui, a, nil)
-	_, _, _ = vC10Request(ui, b, editB)
+	// the request in between comes from any of the pages that build a report
+	cmdB := [][]string{{"top"}, {"weblist", "main"}, {"peek", "work"}, {"disasm", "main"}}[vChoice("pageB", 4)]
+	_, _, _ = vC10RequestCmd(ui, b, editB, cmdB)
 	again, warn2, ok2 := vC10Request(ui, a, nil)
 	vUnfreeze()
 	vAssert(vStrEq(vSer(copier.newCopy()), pristine), "C10.web.copy: a copy handed out after the requests differs from one handed out before them")
